@@ -517,7 +517,7 @@ MANIFEST = dict(
     note='pinv/solve/svd are contract stubs (full-rank genericity); '
     'math.sqrt(Nt) idealised as exact; floats as reals; MMSE->ZF limit '
     'outside'
-    ' Concrete data-representation / scale / boundary probes of the real'
+    '. Concrete data-representation / scale / boundary probes of the real'
     ' code (dtype, container and memory-layout variants, argument'
     ' immutability, magnitudes) accompany the symbolic runs; they are'
     ' differential runs, not solver verdicts.',
